@@ -965,6 +965,31 @@ func cmdBSI(args []string) {
 			}
 			return true
 		}
+		if !bulk && *prof != "query" && r.Intn(5) == 0 {
+			// ParOr of three indexes on pairwise disjoint columns, then updates of the operands: the result must keep its map
+			perm := r.Perm(e.nc)
+			owner := map[int][]int{}
+			for i, a := range perm {
+				sl := 1 + i*3/e.nc
+				owner[sl] = append(owner[sl], a+1)
+				e.run(BCall{Op: "BSetValue", X: sl, Col: a + 1, Val: val()})
+			}
+			x := 1 + r.Intn(3)
+			ys := []int{}
+			for y := 1; y <= 3; y++ {
+				if y != x {
+					ys = append(ys, y)
+				}
+			}
+			if r.Intn(2) == 0 {
+				ys[0], ys[1] = ys[1], ys[0]
+			}
+			e.run(BCall{Op: "BParOr", X: x, Ys: ys, Par: pick(r, []int{0, 1, 2, 3})})
+			for _, y := range ys {
+				e.run(BCall{Op: "BSetValue", X: y, Col: owner[y][r.Intn(len(owner[y]))], Val: val()})
+			}
+			e.run(BCall{Op: "BClear", X: ys[r.Intn(2)], Cols: &[]int{owner[ys[0]][0], owner[ys[1]][0]}})
+		}
 		if bulk { // the class of 100000+ columns exists in slot 1 (and sometimes 2) from the start
 			e.run(BCall{Op: "BSetMany", X: 1, Cols: &[]int{6}, Val: val()})
 			if r.Intn(2) == 0 {
